@@ -54,6 +54,11 @@ func (d *PathDecoder) decodeWriteOnlyAttributesForBody(body hcl.Body, bodySchema
 				continue
 			}
 
+			if len(block.Labels) == 0 {
+				// the resource type is not written (yet)
+				continue
+			}
+
 			mergedSchema, _ := schemahelper.MergeBlockBodySchemas(block.Block, blockSchema)
 
 			blockContent := ast.DecodeBody(block.Body, blockSchema.Body)
